@@ -134,7 +134,8 @@ def check(pm: ProgramModel, ctx: Ctx) -> None:
                  mb.model(rt, [mb.constraint("u", n(o("IMPLIES"), n("Tls"), n("Http"))),
                                mb.constraint("l", n(o("IMPLIES"), n("TLS"), n("HTTP")))]),
                  "two constraints whose texts differ in letter case only (over four distinct features)")
-        for cls_ in ("space", "punct", "unicode", "opword", "keyword"):
+        for cls_ in ("space", "punct", "unicode", "opword", "keyword", "apostrophes", "dot-inside", "dot-and-punct", "leading-blank",
+                     "number-like"):
             validate(ctx, pm, writer, f"{P}-ONEENC", f"name:{cls_}", name_model(mb, NAME_CLASSES[cls_]),
                      f"feature named {NAME_CLASSES[cls_]!r}", fragment=(writer == "SPLOTWriter"))
         from ..codec import export_models
